@@ -12,7 +12,7 @@
 //!       u<sid>                un-pause the consumer of stream sid
 //!       ir<id> ie<id>         release the (error) reply to call id          ia<sid>  release the AddMatch reply of stream sid
 //!       is<A|B><F|G>:<n>      release a signal of interface v.A/v.B, member F/G, n byte body
-//! Observation:  lens=..;costs=..;tasks=..;trace=..;rd=<bytes read>;wr=<sendmsg calls>
+//! Observation:  lens=..;costs=..;tasks=..;trace=..;rd=<bytes read>;wr=<sendmsg calls>;fp=<phase in which the transport failed | ->
 //!   tasks: per task (in order of appearance)  C<id>=ok<k>|me<k>|io:<kind>|err:<class>|HANG
 //!                                             S<sid>=<items joined by .>:<opening|open|ended|failed:<kind>>
 //!                                             E=ok|io:<kind>|HANG
@@ -263,8 +263,10 @@ pub fn run(w: &[&str]) -> String {
     let mut trace: Vec<String> = vec![];
     let mut bad = false;
     let mut polls: u64 = 0;
+    // the phase (0-based) during which the transport failed: the first failed recvmsg or sendmsg
+    let mut fault_phase: Option<usize> = None;
 
-    for phase in w[6].split('/') {
+    for (phase_idx, phase) in w[6].split('/').enumerate() {
         trace.push("|".into());
         for op in phase.split(',').filter(|o| !o.is_empty()) {
             let (k, rest) = op.split_at(1);
@@ -431,8 +433,14 @@ pub fn run(w: &[&str]) -> String {
                         progress = true;
                     }
                 }
-                if shared.lock().unwrap().activity != before {
-                    progress = true;
+                {
+                    let st = shared.lock().unwrap();
+                    if st.activity != before {
+                        progress = true;
+                    }
+                    if fault_phase.is_none() && (st.broken || st.after_fault > 0) {
+                        fault_phase = Some(phase_idx);
+                    }
                 }
             }
             idle_sweeps = if progress { 0 } else { idle_sweeps + 1 };
@@ -461,13 +469,17 @@ pub fn run(w: &[&str]) -> String {
         .collect();
     let j = |v: &Vec<usize>| if v.is_empty() { "-".to_string() } else { v.iter().map(|x| x.to_string()).collect::<Vec<_>>().join(".") };
     format!(
-        "lens={};costs={};tasks={};trace={};rd={};wr={}{}",
+        "lens={};costs={};tasks={};trace={};rd={};wr={};fp={}{}",
         j(&lens),
         if costs.is_empty() { "-".to_string() } else { costs.join(".") },
         toks.join(","),
         trace.join(" "),
         st.rpos,
         st.wcalls,
+        match fault_phase {
+            Some(p) => p.to_string(),
+            None => "-".to_string(),
+        },
         if bad { ";unanswerable" } else { "" }
     )
 }
